@@ -253,6 +253,17 @@ def units(tier, seed):
     for kinds in ('UU', 'UN', 'NU'):
         add('outer/(2,)x(3,)/%s/D%d,P%d' % (kinds, D, P), 'h_dot', fn='outer', lshape=(2,), rshape=(3,), kinds=kinds, D=D, P=P)
         add('outer/(2,)x(2,)/%s/D%d,P%d' % (kinds, D, P), 'h_dot', fn='outer', lshape=(2,), rshape=(2,), kinds=kinds, D=D, P=P)
+    # degenerate but valid shapes: size-1 axes, single row / single column, 1x1
+    for ls, rs in [((1, 2), (2, 1)), ((2, 1), (1, 2)), ((1, 1), (1, 1)), ((1,), (1,)), ((1, 3), (3,)), ((3,), (3, 1))]:
+        for kinds in ('UU', 'UN', 'NU'):
+            add('dot/%s.%s/%s/D3,P2' % (ls, rs, kinds), 'h_dot', fn='dot', lshape=ls, rshape=rs, kinds=kinds, D=3, P=2)
+    for kinds in ('UU', 'UN', 'NU'):
+        add('outer/(1,)x(3,)/%s/D3,P2' % kinds, 'h_dot', fn='outer', lshape=(1,), rshape=(3,), kinds=kinds, D=3, P=2)
+        add('outer/(3,)x(1,)/%s/D3,P2' % kinds, 'h_dot', fn='outer', lshape=(3,), rshape=(1,), kinds=kinds, D=3, P=2)
+        add('solve/1x1,k1/%s/D4,P2' % kinds, 'h_solve', n=1, k=1, kinds=kinds, D=4, P=2)
+        add('solve/1x1,k3/%s/D3,P2' % kinds, 'h_solve', n=1, k=3, kinds=kinds, D=3, P=2)
+    add('inv/1x1/D5,P2', 'h_inv', n=1, D=5, P=2)
+    add('trace/1x1/D3,P2', 'h_trace', n=1, D=3, P=2)
     add('trace/3x3/D%d,P%d' % (D, P), 'h_trace', n=3, D=D, P=P)
     for (n_, m_) in [(5, 2), (2, 5), (4, 1), (3, 2)]:
         add('trace/%dx%d/D2,P2' % (n_, m_), 'h_trace', n=n_, m=m_, D=2, P=2)
